@@ -205,6 +205,10 @@ class Hooks:
         """f: a stdlib callable about to be applied."""
         return NotImplemented
 
+    def join_parts(self, interp, parts, node):
+        """An f-string has a part that is not a plain str (a rule-supplied text object)."""
+        raise Incomplete("f-string over a non-string text object")
+
     def open_file(self, interp, args, kwargs, node):
         """The interpreted code calls open(...): return an abstract file object or raise Incomplete."""
         raise Incomplete("open() not interpreted")
@@ -222,7 +226,9 @@ _PY_EXC = (TypeError, ValueError, NameError, IndexError, KeyError, AttributeErro
 _SAFE_BUILTINS = {
     "len", "int", "bool", "tuple", "list", "set", "dict", "frozenset", "range", "enumerate", "zip",
     "ord", "chr", "max", "min", "sorted", "any", "all", "abs", "sum", "reversed", "float", "object",
-    "True", "False", "None", "Exception", "TypeError", "ValueError",
+    "True", "False", "None", "Exception", "TypeError", "ValueError", "divmod", "round", "pow", "hex", "oct", "bin",
+    "slice", "bytes", "callable", "ascii", "filter", "KeyError", "IndexError", "AttributeError", "NotImplementedError",
+    "RuntimeError", "StopIteration", "AssertionError",
 }
 
 _EXT_MODULES = {"re": re, "string": string}
@@ -925,6 +931,8 @@ class Interp:
                         except _PY_EXC as ex:
                             raise PyRaise(type(ex), ex.args, p)
                     parts.append(s)
+            if any(not isinstance(x, str) for x in parts):
+                return self.hooks.join_parts(self, parts, e)
             out = "".join(parts)
             self.hooks.on_text(self, e, frame, out)
             return out
